@@ -115,9 +115,9 @@ def gen_hyper(rng, pair):
         return math.exp(rng.uniform(math.log(lo), math.log(hi)))
     n = rng.randint(1, 5)
     h = dict(pair=pair)
-    if pair in ("ge", "ge_exp", "ge_vec", "ge_list", "two"):
-        d = 2 if pair in ("ge_vec", "ge_list") else 1
-        n = 1 if pair in ("ge_vec", "ge_list") else n      # one observation per component (data shape [d])
+    if pair in ("ge", "ge_exp", "ge_vec", "ge_list", "two", "two_vec"):
+        d = 2 if pair in ("ge_vec", "ge_list", "two_vec") else 1
+        n = 1 if pair in ("ge_vec", "ge_list", "two_vec") else n      # one observation per component (data shape [d])
         h.update(a=[logu(0.6, 5) for _ in range(d)], b=[logu(0.3, 3) for _ in range(d)],
                  xs=[[round(logu(0.05, 3), 3) for _ in range(d)] for _ in range(n)])
     if pair == "gp":
@@ -126,7 +126,7 @@ def gen_hyper(rng, pair):
             # a data set large enough for the marginal likelihood itself to be far outside the range of a double
             # (log Z below -1500): importance weights must be averaged in the log domain
             h["ks"] = [rng.randint(0, 9) for _ in range(rng.randint(700, 1100))]
-    if pair in ("nn", "nn_aff", "lnn_exp", "two"):
+    if pair in ("nn", "nn_aff", "lnn_exp", "two", "two_vec"):
         h.update(m0=rng.uniform(-2, 2), s0=logu(0.3, 3), sigma=logu(0.3, 3),
                  ys=[round(rng.uniform(-3, 3), 3) for _ in range(rng.randint(1, 5))])
         if pair == "nn_aff":
@@ -153,7 +153,9 @@ def gen_hyper(rng, pair):
                  x=[round(rng.uniform(-2, 2), 3), round(rng.uniform(-2, 2), 3)])
         if pair == "mvn_full":      # the textbook form: multivariate normal likelihood, loc = the latent mean
             h["S"] = spd()
-        h["qparam"] = rng.choice(["covariance_matrix", "precision_matrix", "scale_tril"])
+        # the variational family: torchtree's MultivariateNormal model in its three parameterisations, or the generic
+        # Distribution wrapper around torch.distributions.MultivariateNormal
+        h["qparam"] = rng.choice(["covariance_matrix", "precision_matrix", "scale_tril", "generic"])
     return h
 
 
@@ -197,7 +199,7 @@ def build_spec(h, qclass, perturb):
     def vec(l):
         return l if len(l) > 1 else [l[0]]
 
-    if pair in ("ge", "ge_exp", "ge_vec", "ge_list", "two"):
+    if pair in ("ge", "ge_exp", "ge_vec", "ge_list", "two", "two_vec"):
         a, b, xs = h["a"], h["b"], h["xs"]
         d, n = len(a), len(xs)
         sx = [math.fsum(r[j] for r in xs) for j in range(d)]
@@ -248,7 +250,7 @@ def build_spec(h, qclass, perturb):
             logml += (a[j] * math.log(b[j]) - math.lgamma(a[j]) + math.lgamma(a[j] + n)
                       - (a[j] + n) * math.log(b[j] + sx[j]))
             ent += _gamma_entropy(qa[j], qb[j])
-        if d == 1 and pair != "two" and perturb is None:
+        if d == 1 and pair not in ("two", "two_vec") and perturb is None:
             args = f"(ofQ NumI {q(a[0])}) (ofQ NumI {q(b[0])})"
             xl = _il([r[0] for r in xs])
             fn = ("ge_exp_lp", "ge_exp_lq") if via_exp else ("ge_lp", "ge_lq")
@@ -279,7 +281,7 @@ def build_spec(h, qclass, perturb):
             s.coq = (lambda z: f"gp_lp NumI {args} (ofQ NumI {q(math.lgamma(a))}) {kl} {gl} (ofQ NumI {q(z[0])})",
                      lambda z: f"gp_lq NumI {args} (ofQ NumI {q(math.lgamma(a + sk))}) {kl} (ofQ NumI {q(z[0])})",
                      f"gp_logml NumI {args} (ofQ NumI {q(math.lgamma(a))}) (ofQ NumI {q(math.lgamma(a + sk))}) {kl} {gl}")
-    if pair in ("nn", "nn_aff", "lnn_exp", "two"):
+    if pair in ("nn", "nn_aff", "lnn_exp", "two", "two_vec"):
         m0, s0, sg, ys = h["m0"], h["s0"], h["sigma"], h["ys"]
         m1, s1 = nn_posterior(m0, s0, sg, ys)
         lat_id = "mu"
@@ -319,7 +321,7 @@ def build_spec(h, qclass, perturb):
         lq_terms.append((lambda lat: _normal_lpdf(qm, qs, lat[0]), 1))
         logml += nn_logml(m0, s0, sg, ys, m1, s1)
         ent += _normal_entropy(qs)
-        if pair != "two" and perturb is None:
+        if pair not in ("two", "two_vec") and perturb is None:
             k = f"(ofQ NumI {q(HL2PI)})"
             yl = _il(ys)
             pr = f"(ofQ NumI {q(m0)}) (ofQ NumI {q(s0)}) (ofQ NumI {q(sg)})"
@@ -448,8 +450,12 @@ def build_spec(h, qclass, perturb):
             qmat = [[l11, 0.0], [l21, math.sqrt(qS[1][1] - l21 * l21)]]
         else:
             qmat = qS
-        qd.append({"id": "q.mu", "type": "MultivariateNormal", "x": "mu",
-                   "parameters": {"loc": P("q.loc", qm), qpar: P("q.cov", qmat)}})
+        if qpar == "generic":
+            qd.append(D("q.mu", "torch.distributions.MultivariateNormal", "mu",
+                        {"loc": P("q.loc", qm), "covariance_matrix": P("q.cov", qS)}))
+        else:
+            qd.append({"id": "q.mu", "type": "MultivariateNormal", "x": "mu",
+                       "parameters": {"loc": P("q.loc", qm), qpar: P("q.cov", qmat)}})
         s.fire += ["q.loc"]
         lp_terms.append((lambda lat: _mvn_lpdf(lat, S, x) + _mvn_lpdf(m0, S0, lat), 2))
         lq_terms.append((lambda lat: _mvn_lpdf(qm, qS, lat), 2))
@@ -533,6 +539,10 @@ def gen_cases(rng, tier):
                 for shape in ([1], [2], [3], [1, 3], [3, 2]):
                     for qclass in ("joint", "bare"):
                         cases.append(mk(obj, par, shape, qclass, True, pair))
+        # a joint q whose components have DIFFERENT sizes ([2] gamma rates next to [1] normal mean)
+        for obj, par in [("ELBO", None), ("ELBO-entropy", None), ("VR", 0.5), ("KLpq", None)]:
+            for shape in ([1], [3], [2, 2]):
+                cases.append(mk(obj, par, shape, "joint", True, "two_vec"))
         for obj, par in [("ELBO", None), ("VR", 0.5), ("CUBO", 2.0), ("KLpq", None)]:
             for shape in ([1], [3], [2, 2]):
                 cases.append(mk(obj, par, shape, "bare", True, "mvn_full"))
